@@ -51,6 +51,10 @@ type Tunnel struct {
 
 	// writeMu serializes Write: the packet loop and the relay goroutine both send to the client
 	writeMu sync.Mutex
+
+	// attachMu guards the attachment of the RDG_IN_DATA channel: a legacy tunnel is found by its
+	// connection id, so requests carrying the same id look at it concurrently
+	attachMu sync.Mutex
 }
 
 // Write puts the packet on the transport and updates the statistics for bytes sent
